@@ -24,6 +24,7 @@ CONSTANTS
   MaxDon,      \* donations per behaviour
   WithInvalid, \* also offer malformed / unauthorised variants of every message
   WithGenesis, \* also offer genesis round trips
+  WithParams,  \* also offer MsgUpdateParams (authority, validity, fee settings incl. empty fees, extension period 0..2)
   WithQueries, \* C16: also offer queries (answers are compared with the state the request describes)
   Faults,      \* C07: a block is offered with fault = f for every f here (0 = no injected bank failure)
   HookVariants \* C17: also offer every input with one failing listener
@@ -58,6 +59,9 @@ Template(n, now, ds) ==
     [] n = "B3"  -> Batch(A1, D, 1, 5, ts, e1, Sched3(e1 + 3), 3, 1)
     [] n = "B4"  -> Batch(A1, D, Half, 9, ts, e2, <<[t |-> e2 + 2, w |-> D]>>, 1, Half)
     [] n = "B5"  -> Batch(A1, D, Half, 4, ts, e1, <<>>, 3, Half)
+    [] n = "F100" -> Fixed(A1, D, 50, ts, e2, [k \in 1..100 |-> [t |-> e2 + k, w |-> D \div 100]])
+    [] n = "B100" -> Batch(A1, D, 1, 50, ts, e2, [k \in 1..100 |-> [t |-> e2 + 2 * k, w |-> D \div 100]], 2, Half)
+    [] n = "B30"  -> Batch(A1, D, 1, 20, ts, e1, <<>>, 30, 1)
     [] n = "Bx"  -> Batch(A1, D, 1, 6, ts, e1, <<[t |-> e1 + 1, w |-> Half], [t |-> e1 + 2, w |-> D - Half]>>, 2, 1)
     [] n = "Bl"  -> Batch(A1, D, Half, 10, ts, e1, Sched3(e1 + 1), 1, 1)
     [] n = "BB"  -> [Batch(UserSeq[2], D, Half, 8, ts, e2, <<>>, 1, Half) EXCEPT !.sellDenom = "dB", !.payDenom = "dA"]
@@ -197,6 +201,12 @@ HookVariantsOf(S) ==
   IF ~HookVariants THEN S
   ELSE S \cup UNION { { m @@ [hookFail |-> h, hookPos |-> p] : h \in HooksOf(m.a), p \in 1..NL } : m \in S }
 
+UpdParams ==
+  { [a |-> "UpdateParams", auth |-> x, valid |-> v, createFee |-> cf, bidFee |-> bf, extPeriod |-> p] :
+      x \in {"gov", UserSeq[1], "bad"}, v \in BOOLEAN,
+      cf \in {[d |-> "dF", n |-> 2], [d |-> "dF", n |-> 0], [d |-> "dA", n |-> 1]},
+      bf \in {[d |-> "dB", n |-> 1], [d |-> "dB", n |-> 0]}, p \in {0, 1, 2} }
+
 Queries(s) ==
   LET ids == 0..Len(s.auctions) IN      \* includes one id that does not exist
   { [a |-> "Query", q |-> "GetAuction", id |-> i] : i \in ids }
@@ -222,7 +232,7 @@ MCInputs0(kind, s, g) ==
     [] kind = "Cancel" -> GoodCancels(s)
     [] kind = "Donate" -> IF MaxDon > 0 THEN Donations(s, g) ELSE {}
     [] kind = "Genesis" -> IF WithGenesis THEN {[a |-> "Genesis"]} ELSE {}
-    [] kind = "UpdateParams" -> {}
+    [] kind = "UpdateParams" -> IF WithParams THEN UpdParams ELSE {}
     [] kind = "Query" -> IF WithQueries THEN Queries(s) ELSE {}
     [] kind = "OddCreate" -> IF WithInvalid /\ Len(s.auctions) < MaxAuc THEN BadCreates(s.now) ELSE {}
     [] kind = "OddBid" -> IF WithInvalid THEN OddBids(s) \cup (GoodBids(s) \ ValidDenomBids(s)) ELSE {}
@@ -237,6 +247,7 @@ BagDefault == W("CreateFixed", 2) \cup W("CreateBatch", 3) \cup W("Cancel", 1) \
               \cup W("UpdateAllowed", 1) \cup W("MsgAddAllowed", 1) \cup W("Bid", 10) \cup W("Modify", 4)
               \cup W("Block", 9) \cup W("Donate", 1) \cup W("Genesis", 1)
               \cup W("OddCreate", 1) \cup W("OddBid", 2) \cup W("OddModify", 1) \cup W("OddAllow", 1) \cup W("OddCancel", 1)
+              \cup W("UpdateParams", 1)
 Users2 == <<"u1", "u2">>
 Users3 == <<"u1", "u2", "u3">>
 Users4 == <<"u1", "u2", "u3", "u4">>
@@ -248,4 +259,6 @@ BagBids == W("CreateFixed", 2) \cup W("CreateBatch", 3) \cup W("AddAllowed", 4) 
 Rich == [dA |-> 40, dB |-> 40, dF |-> 10]
 MCBal0 == [u \in Users |-> Rich]
 MCParams0 == [createFee |-> [d |-> "dF", n |-> 2], bidFee |-> [d |-> "dB", n |-> 1], extPeriod |-> 1]
+ParamsNoFee == [createFee |-> [d |-> "dF", n |-> 0], bidFee |-> [d |-> "dF", n |-> 0], extPeriod |-> 0]
+ParamsPayFee == [createFee |-> [d |-> "dA", n |-> 3], bidFee |-> [d |-> "dB", n |-> 2], extPeriod |-> 2]
 =============================================================================
